@@ -64,6 +64,42 @@ pub mod executor {
         Ok(s)
     }
 
+    /// FLAG C11-R5: a witnessed `true` is overwritten by the next round (anti mode never leaves the loop early)
+    pub fn exists_overwritten(rows: &[Vec<i32>], anti: bool) -> bool {
+        let mut exists = false;
+        for r in rows {
+            exists = r.iter().any(|v| *v > 0);
+            if exists && !anti {
+                break;
+            }
+        }
+        exists ^ anti
+    }
+
+    /// ok: accumulated with |=
+    pub fn exists_accumulated(rows: &[Vec<i32>], anti: bool) -> bool {
+        let mut exists = false;
+        for r in rows {
+            exists |= r.iter().any(|v| *v > 0);
+            if exists && !anti {
+                break;
+            }
+        }
+        exists ^ anti
+    }
+
+    /// ok: overwritten, but the loop is left as soon as it is true
+    pub fn exists_break(rows: &[Vec<i32>]) -> bool {
+        let mut exists = false;
+        for r in rows {
+            exists = r.iter().any(|v| *v > 0);
+            if exists {
+                break;
+            }
+        }
+        exists
+    }
+
     /// ok: is_err used as a condition
     pub fn tested(x: i32) -> bool {
         if fallible(x).is_err() { return false; }
